@@ -705,6 +705,9 @@ class SymTensor:
     def contiguous(self, *a, **k):
         return self
 
+    def conj(self):
+        return self  # real-valued model
+
     def cpu(self):
         return self
 
